@@ -420,6 +420,13 @@ def print_module(m):
 # ---------------------------------------------------------------------------
 # tags (X.680 rules) -- used by generators for legality and by the DER model
 
+EXT_TAG = ('EXT', 0)
+
+
+def real_tags(tagset):
+    return {t for t in tagset if t != EXT_TAG}
+
+
 def effective_tags(spec, ty, modname):
     """List of (cls, num, explicit?) layers from outermost to innermost, ending
     with the universal tag of the base type; for an untagged CHOICE the last
@@ -471,5 +478,9 @@ def outer_tag_set(spec, ty, modname, _depth=0):
                 out.add(('CONTEXT', m.auto))
             else:
                 out |= outer_tag_set(spec, m.ty, r.mod, _depth + 1)
+        if r.base.ext is not None or spec.by_name[r.mod].ext_implied:
+            # X.680 52.7: the extension insertion point counts as a conceptual element whose
+            # tag differs from every ordinary tag but equals that of every other insertion point
+            out.add(EXT_TAG)
         return out
     return {('UNIVERSAL', UNIVERSAL_TAG[r.base.kind])}
